@@ -150,6 +150,7 @@ type Exec struct {
 	CensusSched   atomic.Int64          // goroutines in scheduler code while the limit was saturated (wide scenarios)
 	Limit         int                   // the directive's concurrency limit (set by the runner)
 	MaxJobs       int                   // upper bound on the jobs the directive can submit (set by the runner)
+	NestEntry     interface{}           // nested executions: the *Entry of the nested program
 	startCh       map[int]chan struct{} // closed when the function is first entered
 	startOnce     map[int]*sync.Once
 
@@ -160,6 +161,7 @@ type Exec struct {
 	dummies    []interface{} // pointers handed out by PoisonPtr
 	late       []string
 	seen       [][2]uint64
+	children   []*Exec
 }
 
 // SetPoison registers the assignments that overwrite the argument variables of
@@ -423,6 +425,23 @@ func PanicValue(exec uint64, fn int, key uint64, kind int) interface{} {
 	}
 }
 
+// NestedRun, set by the runner, runs another program's directive inside the
+// body of function fn of execution parent (outcome flag Nest).
+var NestedRun func(parent *Exec, fn int)
+
+// AddChild / Children: nested executions started from this execution's stubs.
+func (x *Exec) AddChild(c *Exec) {
+	x.mu.Lock()
+	x.children = append(x.children, c)
+	x.mu.Unlock()
+}
+
+func (x *Exec) Children() []*Exec {
+	x.mu.Lock()
+	defer x.mu.Unlock()
+	return append([]*Exec(nil), x.children...)
+}
+
 // Call is the body of every stub.
 func (x *Exec) Call(ctx context.Context, fn int, args ...uint64) *Ret {
 	if x == nil {
@@ -494,6 +513,9 @@ func (x *Exec) Call(ctx context.Context, fn int, args ...uint64) *Ret {
 		<-x.gate
 	}
 	delay(o)
+	if o.Nest && NestedRun != nil {
+		NestedRun(x, fn)
+	}
 	ret := &Ret{}
 	switch o.Kind {
 	case prog.OOK, prog.OCancelOK:
@@ -542,6 +564,9 @@ func (x *Exec) quietCall(ctx context.Context, fn int, key uint64, f prog.FnInfo,
 		<-x.gate
 	}
 	delay(o)
+	if o.Nest && NestedRun != nil {
+		NestedRun(x, fn)
+	}
 	ret := &Ret{}
 	switch o.Kind {
 	case prog.OOK, prog.OCancelOK:
